@@ -263,6 +263,26 @@ def w_shape_copies(idx):
                 if canon(got, ("name", "kids")) != canon(t["to"], ("name", "kids")):
                     out.append(("copy:not-equal:source-built-with-children-setter", f"expected {jdump(t['to']['kids'])} got {jdump(got['kids'])}", replay))
             n += 1
+        # the same source carrying a default namespace (key None, as an XML import leaves it) next to a prefixed one
+        if i % 3 == 1:
+            w3 = World.build(t["from"])
+            w3.n(1).add_namespace(None, "urn:default")
+            w3.n(1).add_namespace("x", "urn:x")
+            nb = len(w3.nodes)
+            ok, ret, exc = w3.apply("copy", op["args"])
+            if not ok:
+                out.append((opkey(op, "raised:default-namespace", exc), repr(exc), replay))
+            else:
+                got = w3.pi(("name", "kids", "ns"))
+                kids = t["from"]["kids"]
+
+                def pre(k):
+                    return [k] + [y for c in kids[k - 1] for y in pre(c)]
+                src = pre(op["args"][0])
+                if canon(got, ("name", "kids")) != canon(t["to"], ("name", "kids")) or \
+                        [got["ns"][k - 1] for k in src] != [got["ns"][j] for j in range(nb, len(w3.nodes))]:
+                    out.append(("copy:not-equal:default-namespace", f"source ns {[got['ns'][k - 1] for k in src]} copy ns {got['ns'][nb:]}", replay))
+            n += 1
     return n, out
 
 
